@@ -21,6 +21,11 @@ theorem gen_setHosts : Gen.Updates.refreshHostsConfig_setsHosts = true := by dec
 theorem gen_inside : Gen.Updates.endpointUpdatesInsideLocalityLoop = 0 := by decide
 theorem gen_after : Gen.Updates.endpointUpdatesAfterLocalityLoop = 1 := by decide
 theorem gen_acc : Gen.Updates.localityLoopAccumulates = true := by decide
+theorem gen_lrec : Gen.Updates.addOrUpdateListener_recordsListenerConfig = true := by decide
+theorem gen_lrem : Gen.Updates.removeListeners_removesListenerConfig = true := by decide
+theorem gen_idleLive : Gen.Updates.updateListener_idleLive = true := by decide
+theorem gen_idleCfg : Gen.Updates.updateListener_idleConfig = true := by decide
+theorem gen_late : Gen.Updates.updateListener_lateErrorReturns = 0 := by decide
 
 /-! ## modifyAt -/
 theorem modifyAt_length {α} (f : α → α) (l : List α) (i : Nat) : (modifyAt f l i).length = l.length := by
@@ -517,6 +522,164 @@ theorem inv_foldl_xds {o : Oracle} (as : List (String × List (List XHost))) {ac
   | nil => exact hI
   | cons a r ih => exact ih (inv_xdsAssign hI a.1 a.2)
 
+/-! ## listeners -/
+
+theorem effName_eff (lc : ListenerCfg) : effName { lc with name := effName lc } = effName lc := by
+  unfold effName
+  by_cases h : lc.name.isEmpty
+  · simp [h]
+  · simp [h]
+
+/-- the listener invariant: every live listener serves exactly what its stored config describes. -/
+structure LInv (s : State) : Prop where
+  l_some : ∀ n al, s.listeners n = some al →
+    s.lstore n = some al.cfg ∧ al.cfg.name = n ∧ effName al.cfg = n ∧ al.cfg.chains = 1 ∧ al.cfg.tlsOk = true ∧
+    al.sf = al.cfg.sf ∧ al.nf = al.cfg.nf ∧ al.idle = al.cfg.idle
+  l_none : ∀ n, s.listeners n = none → s.lstore n = none
+
+theorem linv_init : LInv init := by
+  constructor <;> intros <;> simp_all [init, FMap.empty]
+
+theorem linv_congr {s s' : State} (h1 : s'.listeners = s.listeners) (h2 : s'.lstore = s.lstore) (hL : LInv s) : LInv s' := by
+  constructor
+  · intro n al h; rw [h1] at h; rw [h2]; exact hL.l_some n al h
+  · intro n h; rw [h1] at h; rw [h2]; exact hL.l_none n h
+
+theorem inv_congr {o : Oracle} {s s' : State} (h1 : s'.wrappers = s.wrappers) (h2 : s'.rstore = s.rstore)
+    (h3 : s'.clusters = s.clusters) (h4 : s'.cstore = s.cstore) (hI : Inv o s) : Inv o s' := by
+  constructor
+  · intro n w h; rw [h1] at h; rw [h2]; exact hI.r_some n w h
+  · intro n h; rw [h1] at h; rw [h2]; exact hI.r_none n h
+  · intro n lc h; rw [h3] at h; rw [h4]; exact hI.c_some n lc h
+  · intro n h; rw [h3] at h; rw [h4]; exact hI.c_none n h
+
+/-- what `AddOrUpdateListener` does, case by case (with the regenerated facts plugged in). -/
+theorem addOrUpdateListener_cases (s : State) (lc0 : ListenerCfg) :
+    (lc0.chains ≠ 1 ∧ addOrUpdateListener s lc0 = (s, false)) ∨
+    (∃ al, lc0.chains = 1 ∧ s.listeners (effName lc0) = some al ∧ (al.cfg.addr ≠ lc0.addr ∨ lc0.tlsOk = false) ∧
+      addOrUpdateListener s lc0 = (s, false)) ∨
+    (∃ al, lc0.chains = 1 ∧ s.listeners (effName lc0) = some al ∧ al.cfg.addr = lc0.addr ∧ lc0.tlsOk = true ∧
+      addOrUpdateListener s lc0 =
+        ({ s with listeners := s.listeners.set (effName lc0)
+                    ⟨{ al.cfg with sf := lc0.sf, nf := lc0.nf, tlsOk := lc0.tlsOk, idle := lc0.idle }, lc0.sf, lc0.nf, lc0.idle⟩,
+                  lstore := s.lstore.set al.cfg.name { al.cfg with sf := lc0.sf, nf := lc0.nf, tlsOk := lc0.tlsOk, idle := lc0.idle } }, true)) ∨
+    (lc0.chains = 1 ∧ s.listeners (effName lc0) = none ∧ lc0.tlsOk = false ∧ addOrUpdateListener s lc0 = (s, false)) ∨
+    (lc0.chains = 1 ∧ s.listeners (effName lc0) = none ∧ lc0.tlsOk = true ∧
+      addOrUpdateListener s lc0 =
+        ({ s with listeners := s.listeners.set (effName lc0) ⟨{ lc0 with name := effName lc0 }, lc0.sf, lc0.nf, lc0.idle⟩,
+                  lstore := s.lstore.set (effName lc0) { lc0 with name := effName lc0 } }, true)) := by
+  by_cases hc : lc0.chains = 1
+  · right
+    cases hl : s.listeners (effName lc0) with
+    | some al =>
+      by_cases hbad : al.cfg.addr ≠ lc0.addr ∨ lc0.tlsOk = false
+      · left
+        refine ⟨al, hc, rfl, hbad, ?_⟩
+        simp only [addOrUpdateListener, hc, hl, gen_late, ne_eq, not_true_eq_false, if_false, if_true]
+        have : (decide (¬ al.cfg.addr = lc0.addr) || !lc0.tlsOk) = true := by
+          rcases hbad with h | h
+          · simp [h]
+          · simp [h]
+        simp only [this, if_true]
+      · right; left
+        have h1 : al.cfg.addr = lc0.addr := by
+          by_cases e : al.cfg.addr = lc0.addr
+          · exact e
+          · exact absurd (Or.inl e) hbad
+        have h2 : lc0.tlsOk = true := by
+          cases e : lc0.tlsOk
+          · exact absurd (Or.inr e) hbad
+          · rfl
+        refine ⟨al, hc, rfl, h1, h2, ?_⟩
+        simp [addOrUpdateListener, hc, hl, h1, h2, gen_idleCfg, gen_idleLive, recordListener, gen_lrec]
+    | none =>
+      right; right
+      cases ht : lc0.tlsOk with
+      | false => left; exact ⟨hc, rfl, rfl, by simp [addOrUpdateListener, hc, hl, ht]⟩
+      | true => right; exact ⟨hc, rfl, rfl, by simp [addOrUpdateListener, hc, hl, ht, recordListener, gen_lrec]⟩
+  · left
+    exact ⟨hc, by simp [addOrUpdateListener, hc]⟩
+
+theorem linv_addOrUpdateListener {s : State} (hL : LInv s) (lc0 : ListenerCfg) : LInv (addOrUpdateListener s lc0).1 := by
+  rcases addOrUpdateListener_cases s lc0 with ⟨_, h⟩ | ⟨al, _, _, _, h⟩ | ⟨al, hc, hl, ha, ht, h⟩ | ⟨_, _, _, h⟩ | ⟨hc, hl, ht, h⟩
+  · rw [h]; exact hL
+  · rw [h]; exact hL
+  · rw [h]
+    obtain ⟨h1, h2, h3, h4, h5, h6, h7, h8⟩ := hL.l_some _ al hl
+    dsimp only
+    constructor
+    · intro n al' hn
+      by_cases e : n = effName lc0
+      · subst e
+        simp only [FMap.set_same, Option.some.injEq] at hn
+        subst hn
+        refine ⟨by simp [h2], h2, ?_, h4, ht, rfl, rfl, rfl⟩
+        simpa [effName, h2] using h3
+      · simp only [FMap.set_other _ _ e] at hn
+        simp only [h2, FMap.set_other _ _ e]
+        exact hL.l_some n al' hn
+    · intro n hn
+      by_cases e : n = effName lc0
+      · subst e; simp at hn
+      · simp only [FMap.set_other _ _ e] at hn
+        simp only [h2, FMap.set_other _ _ e]
+        exact hL.l_none n hn
+  · rw [h]; exact hL
+  · rw [h]
+    dsimp only
+    constructor
+    · intro n al' hn
+      by_cases e : n = effName lc0
+      · subst e
+        simp only [FMap.set_same, Option.some.injEq] at hn
+        subst hn
+        exact ⟨by simp, rfl, effName_eff lc0, hc, ht, rfl, rfl, rfl⟩
+      · simp only [FMap.set_other _ _ e] at hn
+        simp only [FMap.set_other _ _ e]
+        exact hL.l_some n al' hn
+    · intro n hn
+      by_cases e : n = effName lc0
+      · subst e; simp at hn
+      · simp only [FMap.set_other _ _ e] at hn
+        simp only [FMap.set_other _ _ e]
+        exact hL.l_none n hn
+
+theorem addOrUpdateListener_others (s : State) (lc0 : ListenerCfg) :
+    (addOrUpdateListener s lc0).1.wrappers = s.wrappers ∧ (addOrUpdateListener s lc0).1.rstore = s.rstore ∧
+    (addOrUpdateListener s lc0).1.clusters = s.clusters ∧ (addOrUpdateListener s lc0).1.cstore = s.cstore := by
+  rcases addOrUpdateListener_cases s lc0 with ⟨_, h⟩ | ⟨al, _, _, _, h⟩ | ⟨al, _, _, _, _, h⟩ | ⟨_, _, _, h⟩ | ⟨_, _, _, h⟩ <;>
+    rw [h] <;> exact ⟨rfl, rfl, rfl, rfl⟩
+
+theorem deleteListener_eq (s : State) (name : String) :
+    (s.listeners name = none ∧ deleteListener s name = (s, true)) ∨
+    (∃ al, s.listeners name = some al ∧
+      deleteListener s name = ({ s with listeners := s.listeners.del name, lstore := s.lstore.del name }, true)) := by
+  cases h : s.listeners name with
+  | none => left; exact ⟨rfl, by simp [deleteListener, h]⟩
+  | some al => right; exact ⟨al, rfl, by simp [deleteListener, h, gen_lrem]⟩
+
+theorem linv_deleteListener {s : State} (hL : LInv s) (name : String) : LInv (deleteListener s name).1 := by
+  rcases deleteListener_eq s name with ⟨_, h⟩ | ⟨al, _, h⟩
+  · rw [h]; exact hL
+  · rw [h]
+    dsimp only
+    constructor
+    · intro n al' hn
+      by_cases e : n = name
+      · subst e; simp at hn
+      · simp only [FMap.del_other _ e] at hn ⊢
+        exact hL.l_some n al' hn
+    · intro n hn
+      by_cases e : n = name
+      · subst e; simp
+      · simp only [FMap.del_other _ e] at hn ⊢
+        exact hL.l_none n hn
+
+theorem deleteListener_others (s : State) (name : String) :
+    (deleteListener s name).1.wrappers = s.wrappers ∧ (deleteListener s name).1.rstore = s.rstore ∧
+    (deleteListener s name).1.clusters = s.clusters ∧ (deleteListener s name).1.cstore = s.cstore := by
+  rcases deleteListener_eq s name with ⟨_, h⟩ | ⟨al, _, h⟩ <;> rw [h] <;> exact ⟨rfl, rfl, rfl, rfl⟩
+
 /-- every operation preserves the invariant (successful, failed, repeated or no-op alike). -/
 theorem inv_step {o : Oracle} {s : State} (hI : Inv o s) (op : Op) : Inv o (step o s op).1 := by
   cases op with
@@ -588,6 +751,12 @@ theorem inv_step {o : Oracle} {s : State} (hI : Inv o s) (op : Op) : Inv o (step
   | xdsEndpoints assignments =>
     simp only [step]
     exact inv_foldl_xds assignments hI
+  | addOrUpdateListener lc =>
+    obtain ⟨h1, h2, h3, h4⟩ := addOrUpdateListener_others s lc
+    exact inv_congr h1 h2 h3 h4 hI
+  | deleteListener n =>
+    obtain ⟨h1, h2, h3, h4⟩ := deleteListener_others s n
+    exact inv_congr h1 h2 h3 h4 hI
 
 theorem inv_runFrom {o : Oracle} (ops : List Op) {s : State} (hI : Inv o s) : Inv o (runFrom o s ops) := by
   induction ops generalizing s with
@@ -753,6 +922,131 @@ theorem zip_map_lookup {α} (f : String → α) (names : List String) {n : Strin
       · exact absurd rfl e
       · exact ih hn
 
+/-! router / cluster operations do not touch the listener side -/
+
+theorem recordRouter_listeners (b : Bool) (s : State) (cfg : RouterCfg) :
+    (recordRouter b s cfg).listeners = s.listeners ∧ (recordRouter b s cfg).lstore = s.lstore := by
+  unfold recordRouter; split <;> exact ⟨rfl, rfl⟩
+
+theorem refreshHosts_listeners (b : Bool) (s : State) (n : String) (h : List Host) :
+    (refreshHosts b s n h).listeners = s.listeners ∧ (refreshHosts b s n h).lstore = s.lstore := by
+  unfold refreshHosts
+  split
+  · split <;> exact ⟨rfl, rfl⟩
+  · exact ⟨rfl, rfl⟩
+
+theorem updateHosts_listeners (s : State) (c : String) (f : List Host → List Host) :
+    (updateHosts s c f).1.listeners = s.listeners ∧ (updateHosts s c f).1.lstore = s.lstore := by
+  unfold updateHosts
+  split
+  · exact ⟨rfl, rfl⟩
+  · exact refreshHosts_listeners _ _ _ _
+
+theorem updateCluster_listeners (s : State) (name : String) (tag : Nat) (cfgHosts : List Host)
+    (handler : Option LiveCluster → List Host) :
+    (updateCluster s name tag cfgHosts handler).1.listeners = s.listeners ∧
+    (updateCluster s name tag cfgHosts handler).1.lstore = s.lstore := by
+  unfold updateCluster
+  refine ⟨((refreshHosts_listeners _ _ _ _).1).trans ?_, ((refreshHosts_listeners _ _ _ _).2).trans ?_⟩
+  · split <;> rfl
+  · split <;> rfl
+
+theorem removeCluster_listeners (s : State) (name : String) :
+    (removeCluster s name).listeners = s.listeners ∧ (removeCluster s name).lstore = s.lstore := by
+  unfold removeCluster; split <;> exact ⟨rfl, rfl⟩
+
+theorem foldl_removeCluster_listeners (names : List String) (s : State) :
+    (names.foldl removeCluster s).listeners = s.listeners ∧ (names.foldl removeCluster s).lstore = s.lstore := by
+  induction names generalizing s with
+  | nil => exact ⟨rfl, rfl⟩
+  | cons n r ih =>
+    simp only [List.foldl_cons]
+    rw [(ih _).1, (ih _).2]
+    exact removeCluster_listeners s n
+
+theorem foldl_xds_listeners (as : List (String × List (List XHost))) (acc : State × Bool) :
+    (as.foldl (fun (acc : State × Bool) a =>
+      let r := xdsAssign acc.1 a.1 a.2
+      (r.1, acc.2 && r.2)) acc).1.listeners = acc.1.listeners ∧
+    (as.foldl (fun (acc : State × Bool) a =>
+      let r := xdsAssign acc.1 a.1 a.2
+      (r.1, acc.2 && r.2)) acc).1.lstore = acc.1.lstore := by
+  induction as generalizing acc with
+  | nil => exact ⟨rfl, rfl⟩
+  | cons a r ih =>
+    simp only [List.foldl_cons]
+    rw [(ih _).1, (ih _).2]
+    simp only [xdsAssign_eq]
+    exact updateHosts_listeners _ _ _
+
+/-- the operation is one of the two listener operations -/
+def isListenerOp : Op → Bool
+  | .addOrUpdateListener _ => true
+  | .deleteListener _ => true
+  | _ => false
+
+theorem step_listeners (o : Oracle) (s : State) (op : Op) (h : isListenerOp op = false) :
+    (step o s op).1.listeners = s.listeners ∧ (step o s op).1.lstore = s.lstore := by
+  cases op with
+  | routersNil => exact ⟨rfl, rfl⟩
+  | addOrUpdateRouters cfg =>
+    simp only [step]
+    split
+    · split
+      · exact ⟨rfl, rfl⟩
+      · exact recordRouter_listeners _ _ _
+    · exact recordRouter_listeners _ _ _
+  | addRoute rname domain r =>
+    simp only [step]
+    split
+    · exact ⟨rfl, rfl⟩
+    · split
+      · exact ⟨rfl, rfl⟩
+      · split
+        · exact ⟨rfl, rfl⟩
+        · exact recordRouter_listeners _ _ _
+  | removeAllRoutes rname domain =>
+    simp only [step]
+    split
+    · exact ⟨rfl, rfl⟩
+    · split
+      · exact ⟨rfl, rfl⟩
+      · split
+        · exact ⟨rfl, rfl⟩
+        · exact recordRouter_listeners _ _ _
+  | addOrUpdateCluster m tag cfgHosts => exact updateCluster_listeners _ _ _ _ _
+  | addOrUpdateClusterAndHost m tag cfgHosts hosts => exact updateCluster_listeners _ _ _ _ _
+  | addClusterNil m => exact ⟨rfl, rfl⟩
+  | updateHosts c hs => exact updateHosts_listeners _ _ _
+  | appendHosts c hs => exact updateHosts_listeners _ _ _
+  | removeHosts c as => exact updateHosts_listeners _ _ _
+  | removeClusters names =>
+    simp only [step]
+    split
+    · exact foldl_removeCluster_listeners names s
+    · exact ⟨rfl, rfl⟩
+  | xdsEndpoints as =>
+    simp only [step]
+    exact foldl_xds_listeners as (s, true)
+  | addOrUpdateListener lc => simp [isListenerOp] at h
+  | deleteListener n => simp [isListenerOp] at h
+
+theorem linv_step (o : Oracle) {s : State} (hL : LInv s) (op : Op) : LInv (step o s op).1 := by
+  cases hop : isListenerOp op with
+  | false => exact linv_congr (step_listeners o s op hop).1 (step_listeners o s op hop).2 hL
+  | true =>
+    cases op with
+    | addOrUpdateListener lc => exact linv_addOrUpdateListener hL lc
+    | deleteListener n => exact linv_deleteListener hL n
+    | _ => simp [isListenerOp] at hop
+
+theorem linv_runFrom (o : Oracle) (ops : List Op) {s : State} (hL : LInv s) : LInv (runFrom o s ops) := by
+  induction ops generalizing s with
+  | nil => exact hL
+  | cons op r ih => exact ih (linv_step o hL op)
+
+theorem linv_run (o : Oracle) (ops : List Op) : LInv (run o ops) := linv_runFrom o ops linv_init
+
 /-! ## absent clusters stay absent -/
 
 @[simp] theorem recordRouter_clusters (b : Bool) (s : State) (cfg : RouterCfg) : (recordRouter b s cfg).clusters = s.clusters := by
@@ -833,6 +1127,8 @@ theorem step_keeps_absent (o : Oracle) {s : State} {n : String} (op : Op) (h : s
   | xdsEndpoints as =>
     simp only [step]
     exact foldl_xds_keeps_absent as h
+  | addOrUpdateListener lc => simp only [step]; rw [(addOrUpdateListener_others s lc).2.2.1]; exact h
+  | deleteListener m => simp only [step]; rw [(deleteListener_others s m).2.2.1]; exact h
 
 theorem runFrom_keeps_absent (o : Oracle) (ops : List Op) {s : State} {n : String} (h : s.clusters n = none)
     (hno : ∀ op ∈ ops, addsCluster n op = false) : (runFrom o s ops).clusters n = none := by
@@ -896,6 +1192,17 @@ theorem step_failed_unchanged (o : Oracle) (s : State) (op : Op) (hs : single op
       simp only [step, List.foldl_cons, List.foldl_nil, Bool.true_and, xdsAssign_eq] at h ⊢
       exact updateHosts_failed h
     | _ :: _ :: _, hs => simp [single] at hs
+  | addOrUpdateListener lc =>
+    simp only [step] at h ⊢
+    rcases addOrUpdateListener_cases s lc with ⟨_, e⟩ | ⟨al, _, _, _, e⟩ | ⟨al, _, _, _, _, e⟩ | ⟨_, _, _, e⟩ | ⟨_, _, _, e⟩
+    · rw [e]
+    · rw [e]
+    · rw [e] at h; cases h
+    · rw [e]
+    · rw [e] at h; cases h
+  | deleteListener m =>
+    simp only [step] at h
+    rcases deleteListener_eq s m with ⟨_, e⟩ | ⟨al, _, e⟩ <;> rw [e] at h <;> cases h
 
 /-! ## the executable predicate on model observations -/
 
@@ -919,8 +1226,24 @@ theorem normalize_eq_eff (lc : LiveCluster) : normalize lc = Spec.effCluster lc 
   intro h _
   exact clampHost_eq_eff h
 
-theorem spec_coherent_on_model (o : Oracle) (ops : List Op) (rnames cnames : List String) (res : List Bool) :
-    Spec.coherent (observe o rnames cnames res (run o ops)) = true := by
+theorem listeners_coherent {s : State} (hL : LInv s) (n : String) : s.listeners n = rebuildListeners (dump s) n := by
+  simp only [rebuildListeners, dump]
+  cases hl : s.listeners n with
+  | none => simp [hL.l_none n hl]
+  | some al =>
+    obtain ⟨h1, h2, h3, h4, h5, h6, h7, h8⟩ := hL.l_some n al hl
+    obtain ⟨cfg, sf, nf, idle⟩ := al
+    simp only at h1 h2 h3 h4 h5 h6 h7 h8
+    subst h6 h7 h8
+    simp only [h1, Option.bind_some, buildListener, h4, h5, ne_eq, not_true_eq_false, if_false, Bool.not_true,
+      Bool.false_eq_true, h3, Option.some.injEq, LiveListener.mk.injEq, and_true]
+    obtain ⟨name, addr, chains, sf', nf', idle', keep, tlsOk⟩ := cfg
+    simp only at h2 h4 h5
+    subst h2 h4 h5
+    rfl
+
+theorem spec_coherent_on_model (o : Oracle) (ops : List Op) (rnames cnames lnames : List String) (res : List Bool) :
+    Spec.coherent (observe o rnames cnames lnames res (run o ops)) = true := by
   have hR : liveRouters (run o ops) = rebuildRouters o (dump (run o ops)) := by
     funext n
     have hI := inv_run o ops
@@ -942,19 +1265,31 @@ theorem spec_coherent_on_model (o : Oracle) (ops : List Op) (rnames cnames : Lis
       exact (dedup_id _ (by rw [map_clamp_addr]; exact hnd)).symm
   unfold Spec.coherent observe
   simp only [Bool.and_eq_true, beq_iff_eq, hR, List.map_map, true_and]
-  apply List.map_congr_left
-  intro n _
-  exact hC n
+  constructor
+  · apply List.map_congr_left
+    intro n _
+    exact hC n
+  · apply List.map_congr_left
+    intro n _
+    exact listeners_coherent (linv_run o ops) n
 
-theorem spec_lastOp_on_model (o : Oracle) (s : State) (hI : Inv o s) (op : Op) (rnames cnames : List String) (res : List Bool)
-    (hcov : ∀ n ∈ clusterNames op, n ∈ cnames) :
+theorem spec_lastOp_on_model (o : Oracle) (s : State) (hI : Inv o s) (hL : LInv s) (op : Op)
+    (rnames cnames lnames : List String) (res : List Bool)
+    (hcov : ∀ n ∈ clusterNames op, n ∈ cnames) (hcovL : ∀ n ∈ listenerNames op, n ∈ lnames) :
     Spec.lastOp op (step o s op).2
-      (fun n => ((cnames.zip (observe o rnames cnames res (step o s op).1).liveC).lookup n).join) = true := by
+      (fun n => ((cnames.zip (observe o rnames cnames lnames res (step o s op).1).liveC).lookup n).join)
+      (fun n => ((lnames.zip (observe o rnames cnames lnames res (step o s op).1).liveL).lookup n).join) = true := by
   have hlook : ∀ n ∈ clusterNames op,
-      ((cnames.zip (observe o rnames cnames res (step o s op).1).liveC).lookup n).join = (step o s op).1.clusters n := by
+      ((cnames.zip (observe o rnames cnames lnames res (step o s op).1).liveC).lookup n).join = (step o s op).1.clusters n := by
     intro n hn
     simp only [observe]
     rw [zip_map_lookup _ cnames (hcov n hn)]
+    rfl
+  have hlookL : ∀ n ∈ listenerNames op,
+      ((lnames.zip (observe o rnames cnames lnames res (step o s op).1).liveL).lookup n).join = (step o s op).1.listeners n := by
+    intro n hn
+    simp only [observe]
+    rw [zip_map_lookup _ lnames (hcovL n hn)]
     rfl
   unfold Spec.lastOp
   cases hok : (step o s op).2 with
@@ -1016,5 +1351,21 @@ theorem spec_lastOp_on_model (o : Oracle) (s : State) (hI : Inv o s) (op : Op) (
         simp only [this, replaceHosts]
         rw [← convHost_addrs]
         exact isAddrSet_dedup _
+    | deleteListener n =>
+      simp only [hlookL n (by simp [listenerNames])]
+      simp only [step]
+      rcases deleteListener_eq s n with ⟨h0, e⟩ | ⟨al, _, e⟩
+      · rw [e]; simp [h0]
+      · rw [e]; simp
+    | addOrUpdateListener lc =>
+      have hn : (if lc.name.isEmpty then lc.addr else lc.name) = effName lc := rfl
+      simp only [hn, hlookL (effName lc) (by simp [listenerNames])]
+      simp only [step] at hok ⊢
+      rcases addOrUpdateListener_cases s lc with ⟨_, e⟩ | ⟨al, _, _, _, e⟩ | ⟨al, _, hl, ha, _, e⟩ | ⟨_, _, _, e⟩ | ⟨_, _, _, e⟩
+      · rw [e] at hok; cases hok
+      · rw [e] at hok; cases hok
+      · rw [e]; simp [ha]
+      · rw [e] at hok; cases hok
+      · rw [e]; simp
 
 end MosnVerif.Model.Updates
